@@ -68,6 +68,24 @@ CHECKS = {
              'give the same result (text / returned value / propagated class and message) and call log.',
         note='Exception classes are builtins; messages compared as first argument.',
         ref='DESIGN.md section 4 C14'),
+    'C03': dict(engine='DTVar', technique='TLA+ staged machine of the dtml-var pipeline (DTVar) checked by TLC; every behaviour exported and replayed into the real tag in several spellings',
+        text='DTVar carries value-origin special characters as marked symbols; TLC checks NoRawSpecial / PlainUntouched over '
+             'all short strings, single code points and random strings x the four insertion forms; each behaviour is '
+             'replayed (HTML, SSI, EPFS, entity, bytes in the template encoding) and must give exactly the machine\'s text.',
+        note='html.escape semantics transcribed as Esc; codecs trusted for the bytes variants.',
+        ref='DESIGN.md section 4 C03'),
+    'C04': dict(engine='DTVar', technique='TLA+ staged machine of the dtml-var pipeline (DTVar) checked by TLC; every behaviour exported and replayed into the real tag in several spellings',
+        text='The taint flag is a state variable carried through every stage; TLC checks NoRawLT and OnceNotTwice for all '
+             '4096 modifier subsets, formats x C-format x sizes x etc x null, three positions of "<"; the real tag must '
+             'produce the machine\'s text for every behaviour (name, expression, entity; three syntaxes).',
+        note='A tainted value is a TaintedString containing "<"; known finding F20 (fmt=multi-line then url_unquote).',
+        ref='DESIGN.md section 4 C04'),
+    'C15': dict(engine='DTVar', technique='TLA+ staged machine of the dtml-var pipeline (DTVar) checked by TLC; every behaviour exported and replayed into the real tag in several spellings',
+        text='One action per pipeline stage with StageOrder as action property, TruncBound, RoundTrip, SqlSafe checked by '
+             'TLC over 13 texts and non-text values x all modifier subsets, formats, sizes, etc strings, null/missing; '
+             'every behaviour replayed in several written orders and syntaxes.',
+        note='ASCII model of case mapping and URL quoting; numeric values via their str() form.',
+        ref='DESIGN.md section 4 C15'),
 }
 
 REASON_PENDING = 'check not built yet in this round (planned, see DESIGN.md section 4)'
